@@ -8,6 +8,7 @@ import time
 
 import vcommon as vc
 import vhist
+import vshrink
 
 
 class Run:
@@ -53,6 +54,12 @@ class Run:
                     self.assumptions.append("%s depends on: %s" % (n, " ".join(a.split())))
             if ob.get("unprinted"):
                 self.broken_obligations.append(dict(what="theorems without Print Assumptions", names=ob["unprinted"]))
+        if self.tier == "thorough" and ob["ok"]:
+            okc, summary = vc.coqchk_property(self.pid)
+            self.cov["coqchk"] = summary
+            if not okc:
+                self.broken_obligations.append(dict(what="coqchk does not accept properties/%s.vo or reports axioms" % self.pid,
+                                                    output=summary))
         ok, out = vc.build_driver()
         if not ok:
             self.broken_obligations.append(dict(what="model extraction / driver build failed", output=out[-3000:]))
@@ -117,6 +124,15 @@ class Run:
     # ------------------------------------------------------------ decision
     def decide(self):
         pid = self.pid
+        for f in self.spec_failures[:3] + self.tie_failures[:2]:
+            if f.get("history") and f.get("source", "oracle") != "harness":
+                try:
+                    out, attempts = vshrink.shrink(f["history"])
+                    if out:
+                        f["shrunk_history"] = out
+                        f["shrink_attempts"] = attempts
+                except Exception as e:   # shrinking is best effort
+                    f["shrink_error"] = str(e)
         if self.spec_failures:
             # a concrete failing input on the implementation
             self.violation("history", dict(failing=self.spec_failures[:5], tie_failures=self.tie_failures[:5],
@@ -156,11 +172,11 @@ class Run:
 
 # ---------------------------------------------------------------- history suites
 
-def hist_suite(run, name, harness_args, nontrivial_rule, known=None, use_driver=True, timeout=3000, binary=None, env=None):
+def hist_suite(run, name, harness_args, nontrivial_rule, known=None, use_driver=True, timeout=3000, binary=None, env=None, seed=None):
     """Runs one harness suite of histories; absorbs coverage; classifies failures.
     known: optional function (HistResult, idx, text) -> finding id or None, attributing a
     spec failure to a listed known finding."""
-    r = vhist.run_hist(harness_args, run.tier, run.seed, run.pid + "-" + name, timeout=timeout, use_driver=use_driver, binary=binary, env=env)
+    r = vhist.run_hist(harness_args, run.tier, run.seed if seed is None else seed, run.pid + "-" + name, timeout=timeout, use_driver=use_driver, binary=binary, env=env)
     if r.races:
         run.spec_failures.append(dict(suite=name, source="go race detector", what="%d data race reports; first: %s" % (r.races, r.race_excerpt)))
         r.rc = 0
@@ -170,7 +186,8 @@ def hist_suite(run, name, harness_args, nontrivial_rule, known=None, use_driver=
     cov["evaluations"] += r.lines
     cov["traces_validated_against_impl"] += r.lines if use_driver else 0
     cov["distinct_nontrivial"] += len(r.distinct)
-    cov["rule"] = (cov["rule"] + " | " if cov["rule"] else "") + name + ": " + nontrivial_rule
+    if nontrivial_rule:
+        cov["rule"] = (cov["rule"] + " | " if cov["rule"] else "") + name + ": " + nontrivial_rule
     dist = cov.setdefault("distribution", {})
     dist[name] = dict(ops=r.ops, outcomes=r.outcomes)
     if len(cov["samples"]) < 8:
@@ -300,10 +317,20 @@ def known_F21(r, idx, text):
     return None
 
 
+CHUNK = 400   # histories per harness/driver invocation (bounds memory in the thorough tier)
+
+
 def check_hist_generic(run, suites, known=None):
     for name, prof, nq, nt, rule in suites:
         n = nq if run.tier == "quick" else nt
-        hist_suite(run, name, ["hist", "-n", n, "-x", prof], rule, known=known)
+        k, first = 0, True
+        while n > 0:
+            m = min(n, CHUNK)
+            hist_suite(run, name if first else "%s#%d" % (name, k), ["hist", "-n", m, "-x", prof],
+                       rule if first else "", known=known, seed=run.seed + 7919 * k)
+            n -= m
+            k += 1
+            first = False
 
 
 RULE_HIST = ("random histories (reset, open with random RAM index mode x RWMode x StartFileLoadingMode x SyncEnable x "
@@ -315,14 +342,14 @@ RULE_HIST = ("random histories (reset, open with random RAM index mode x RWMode 
 def check_C01(run):
     check_hist_generic(run, [("kv", "kv", 400, 8000, RULE_HIST + "; profile kv: Put/PutWithTimestamp/Delete/Get/GetAll/"
                               "RangeScan/PrefixScan/PrefixSearchScan, TTLs on both sides of expiry, exact-fill and oversize entries"),
-                             ("kvdeep", "kvdeep", 150, 3000, RULE_HIST + "; profile kvdeep: 48 keys in one bucket inserted in scattered "
+                             ("kvdeep", "kvdeep", 200, 4000, RULE_HIST + "; profile kvdeep: 48 keys in one bucket inserted in scattered "
                               "order over 30 transactions, so that the real B+ tree has several levels and inner leaves split")])
 
 
 def check_C03(run):
     check_hist_generic(run, [("scan", "scan", 400, 8000, RULE_HIST + "; profile scan: dense key space with many deleted and "
                               "expired keys inside the scanned prefixes, offset 0..5, limit -1..5, regexps"),
-                             ("kvdeep", "kvdeep", 100, 2000, RULE_HIST + "; profile kvdeep (multi-level B+ tree)"),
+                             ("kvdeep", "kvdeep", 120, 2400, RULE_HIST + "; profile kvdeep (multi-level B+ tree)"),
                              ("pages", "pages", 40, 600, "paging sweep: for random contents over 7 keys x {live, deleted, expired, "
                               "absent} every (prefix, offset 0..n+1, limit 1..n+1) PrefixScan and offset-0 PrefixSearchScan; the "
                               "harness also concatenates the pages offset=0,limit,2*limit.. and compares with the live keys")])
@@ -582,7 +609,9 @@ def replay(path):
     print(json.dumps(r, indent=1)[:6000])
     lines = []
     for f in r.get("failing", []) + r.get("tie_failures", []):
-        if "history" in f:
+        if "shrunk_history" in f:
+            lines += ["#H replay (shrunk)"] + [l for l in f["shrunk_history"] if not l.startswith("#H")]
+        elif "history" in f:
             lines += ["#H replay"] + [l for l in f["history"] if not l.startswith("#H")]
         elif "impl" in f:
             lines.append(f["impl"])
